@@ -20,7 +20,7 @@ try:
     n = len(re.findall(pat, s))
     if n != 1:
         print('PATTERN MATCHES', n); sys.exit(3)
-    open(fp, 'w').write(re.sub(pat, lambda m: repl, s, count=1))
+    open(fp, 'w').write(re.sub(pat, lambda m: repl.replace('\\n', '\n'), s, count=1))
     cc = subprocess.run(['clang++', '-std=gnu++17', '-fsyntax-only', '-I' + root + '/include', '-I' + root + '/src', '-x', 'c++', fp],
                         capture_output=True, text=True)
     if cc.returncode:
